@@ -4,7 +4,8 @@ import vlib, docgen, crashgen, gen_lr
 
 KMAP = {'select': 'select', 'guard': 'guard', 'sync': 'sync', 'update': 'assign', 'prob': 'prob'}
 FAULTS = ['forall (q:int[0,3]) +', 'exists (q : int[0,1]) q == ', 'sum (k : int[0,2]) (', 'zz == 1', 'g0 + ', '(g0 == 1', 'g0 == 1)', 'g0 == true + c', '1 +* 2', 'f(', 'g0[', 'x <= ', '{', ')', 'g0 == 1 ; g1', 'forall (q:int[0,3]) forall (r:int[0,1]) q +',
-          'g0 ? 1 :', 'a . b .', '"str', 'g0 = = 1', '', 'g0 == 1 /* never closed', '/* only a comment', 'g0 /* closed */ ==', '1 // trailing', 'g0 == 1 /* x */ /* y']
+          'g0 ? 1 :', 'a . b .', '"str', 'g0 = = 1', '', 'forall (q : bool) g0 == 1', 'exists (q : clock) g0 == 1', 'sum (q : double) 1', 'forall (q : chan) true && g0 == 1', 'g0 == 1 && forall (q : bool) forall (r : int[0,1]) g1 > r',
+          'g0 == 1 /* never closed', '/* only a comment', 'g0 /* closed */ ==', '1 // trailing', 'g0 == 1 /* x */ /* y']
 
 
 def label_sites(M):
